@@ -2819,9 +2819,12 @@ where
     ) -> Vec<GenericEvent<PacketIdType>> {
         let mut events = Vec::new();
 
-        if self.status == ConnectionStatus::Connected {
+        if self.status == ConnectionStatus::Connected
+            || (self.status == ConnectionStatus::Connecting && !self.is_client)
+        {
             // A second CONNACK on an established connection is a protocol violation and must
-            // not touch the session state.
+            // not touch the session state. The same holds for a CONNACK that reaches the side
+            // which received the CONNECT (possible with role Any).
             Self::handle_v3_1_1_error(MqttError::ProtocolError, &mut events);
             return events;
         }
@@ -2863,9 +2866,12 @@ where
     ) -> Vec<GenericEvent<PacketIdType>> {
         let mut events = Vec::new();
 
-        if self.status == ConnectionStatus::Connected {
+        if self.status == ConnectionStatus::Connected
+            || (self.status == ConnectionStatus::Connecting && !self.is_client)
+        {
             // A second CONNACK on an established connection is a protocol violation and must
-            // not touch the session state.
+            // not touch the session state. The same holds for a CONNACK that reaches the side
+            // which received the CONNECT (possible with role Any).
             self.handle_v5_0_error(MqttError::ProtocolError, &mut events);
             return events;
         }
